@@ -1099,10 +1099,19 @@ def back_edge_heads(fn):
     return heads
 
 
-def enum_paths(fn, start=0, ends=None, limit=20000, avoid=()):
-    """all start->end block sequences of the non-cleanup CFG (ends default: return blocks)"""
+def enum_paths(fn, start=0, ends=None, limit=20000, avoid=(), second_iteration=False):
+    """all start->end block sequences of the non-cleanup CFG (ends default: return blocks).  A loop head is entered at
+    most twice; with second_iteration the blocks of a cycle may be passed twice as well, so that a path can run the loop
+    body once and then leave through the loop's own exit test (which need not sit in the head block)"""
     ends = set(fn.return_blocks()) if ends is None else set(ends)
     heads = back_edge_heads(fn)
+    if second_iteration and heads:
+        cyc = getattr(fn, "_cycle_blocks", None)
+        if cyc is None:
+            cyc = {b for b in fn.live_blocks() if b in fn.reach_after(b)}
+            fn._cycle_blocks = cyc
+        heads_cap = heads
+        heads = heads | cyc
     avoid = set(avoid)
     out = []
     path = []
